@@ -74,16 +74,14 @@ def judge_trace(prog, t, st, ot):
         return None
     if c.rsplit(".", 1)[-1] in CONTROL:
         return None
-    user_failed = [e for e in user_events(t, "user") if e.data.get("outcome", "").startswith("builtins.Exception")]
-    if user_failed:
-        if c in prog.classes and prog.is_subclass(c, UNRECOVERABLE):
-            # invocation/execution level errors terminate the invocation (user code lets them propagate)
-            fails = [i for i in ok_sync if evs[i].data.get("action") == "FAIL"]
-            if c.endswith("ExecutionError") or fails or True:
-                return None
+    # a final error reaches the caller: if the operation's body ran in this call, the failure must have been recorded first - whatever its
+    # class. (SDK-level "fatal" errors are ordinary Exceptions on their way through user code: a caller that catches them runs past the call.)
+    if user_events(t, "user"):
         good = [i for i in ok_sync if i > last_user and evs[i].data.get("action") == "FAIL"]
         if not good:
-            return "raises the operation's final error after user code failed without an accepted synchronous FAIL record"
+            short = c.rsplit(".", 1)[-1] or "an exception"
+            fatal = c in prog.classes and prog.is_subclass(c, UNRECOVERABLE)
+            return ("FATAL:" if fatal else "") + f"raises {short} to the caller after the operation's body ran without an accepted synchronous FAIL record"
     return None
 
 
@@ -99,7 +97,6 @@ def build() -> Check:
         "FIFO queues; wrapper: large result is recorded synchronously before SUCCEEDED is returned.",
         ["thread interleavings are not explored: the argument composes R1/R2 (caller blocks on its own event), R3 (the event is set only "
          "after the API returned and the response was merged) and the stdlib Queue/Event happen-before guarantees",
-         "invocation-level errors (UnrecoverableError family) terminate the invocation; user code lets them propagate",
          "an exception raised by a user-supplied retry/wait strategy is not an operation outcome"],
         "one obligation per (rule, executor, cell) and per CFG site",
     )
@@ -114,15 +111,20 @@ def build() -> Check:
         traces = pm.run_cell(ci, st, faults=True)
         n += 1
         ntr += len(traces)
-        bad = []
+        bad, badf = [], []
         for t in traces:
             if t.kinds("LOOP_CUT"):
                 raise AnalysisError(f"loop in executor path {name}/{st}")
             why = judge_trace(prog, t, st, ot)
-            if why:
+            if why and why.startswith("FATAL:"):
+                badf.append((why[6:], t))
+            elif why:
                 bad.append((why, t))
         ck.ob("R1.record-before-outcome", cls_construct(ci), not bad,
               (f"{len(bad)}/{len(traces)} traces: {bad[0][0]}: {trace_sig(bad[0][1])}") if bad else f"{len(traces)} traces", cell=st)
+        # SDK-level "fatal" errors (UnrecoverableError family) are ordinary Exceptions on their way through user code: same obligation, own rule id
+        ck.ob("R1.fatal-error-is-recorded-before-it-is-raised", cls_construct(ci), not badf,
+              (f"{len(badf)}/{len(traces)} traces: {badf[0][0]}: {trace_sig(badf[0][1])}") if badf else "", cell=st)
     ck.floor("cells", n, 17)
     ck.floor("traces", ntr, 100)
 
